@@ -157,7 +157,10 @@ class EvolveAppTask(BaseEvolutionTask):
                 for migration_target in batch.get('migration_targets', []):
                     task = tasks_by_app_label.get(migration_target[0])
 
-                    if task is not None:
+                    if task is not None and not task.evolution_required:
+                        # There's nothing to simulate for this task (no
+                        # mutations, or they would have marked it already).
+                        task.can_simulate = True
                         task.evolution_required = True
 
         # Set some state that execute_tasks() and unit tests can get to.
